@@ -352,6 +352,12 @@ def gen_event(rng, world, gs, weights, mult):
             ev = gen_disk(rng, world, kind)
         elif kind in ("attach", "drop_view", "drop_owner"):
             ev = gen_views(rng, world, kind)
+        elif kind == "set_records":
+            i = rng.randrange(len(world.nodes))
+            ev = {"op": "set_records", "node": i, "via": _via(rng, world, i),
+                  "n": rng.choice([1, 2, 7, 1000, rng.getrandbits(40), (1 << 64) - 1 if rng.random() < 0.1 else 3])}
+            if world.fam == "hll":
+                ev = None
         else:
             ev = None
         if ev is not None:
